@@ -265,6 +265,15 @@ fn audit_run_prepared<P>(rep: &Reporter, what: &str, label: &str, detail: serde_
 where
     P: Instrumented,
 {
+    audit_run_custom(rep, what, label, detail, cfg, problem, seed, parallel, prepared, |_| {})
+}
+
+/// Like `audit_run_prepared`; `extra` prepares further state (swarm memories) after the population has been pushed.
+#[allow(clippy::too_many_arguments)]
+fn audit_run_custom<P>(rep: &Reporter, what: &str, label: &str, detail: serde_json::Value, cfg: &Configuration<P>, problem: &P, seed: u64, parallel: bool, prepared: Option<Vec<P::Encoding>>, extra: impl for<'s> FnOnce(&mut mahf::State<'s, P>) + Send)
+where
+    P: Instrumented,
+{
     #[derive(Default)]
     struct Rec {
         events: u64,
@@ -281,6 +290,7 @@ where
             let inds: Vec<Individual<P>> = sols.into_iter().map(|s| { let v = problem.pure(&s); Individual::new(s, v.try_into().unwrap()) }).collect();
             state.populations_mut().push(inds);
         }
+        extra(state);
     };
     let res = mv::observe::run_observed_prepared(cfg, problem, seed, parallel, None, prepare, |ev, p, state| {
         if let StepEvent::BlockChild { before, component, .. } = ev {
@@ -396,6 +406,58 @@ fn hostile_swarm_states(rep: &Reporter, n: usize) {
     }
 }
 
+/// One ulp across a bound, and swarms at the scale of 1e-170: data states that a run reaches only late (converged onto an
+/// optimum on the boundary resp. at the origin). A repair step or a velocity update that changes a solution by however
+/// little leaves it unevaluated - or carrying the value of the new solution.
+fn rare_scale_states(rep: &Reporter, n: usize) {
+    use mahf::{components::swarm::pso::{BestParticle, BestParticles, ParticleVelocities, ParticleVelocitiesUpdate}, identifier::Global};
+    let mut rng = SplitMix64::new(rep.seed).fork(0xC05_A);
+    let up = |x: f64| if x == 0.0 { f64::from_bits(1) } else if x > 0.0 { f64::from_bits(x.to_bits() + 1) } else { f64::from_bits(x.to_bits() - 1) };
+    let down = |x: f64| if x == 0.0 { -f64::from_bits(1) } else if x > 0.0 { f64::from_bits(x.to_bits() - 1) } else { f64::from_bits(x.to_bits() + 1) };
+    for k in 0..n {
+        let dim = 1 + rng.usize(3);
+        let f = *rng.pick(&[RealFn::AbsSum, RealFn::AbsSum, RealFn::ShiftedSphere, RealFn::Sphere]);
+        let size = 2 + rng.usize(4);
+        let seed = rng.below(1 << 40);
+        if k % 2 == 0 {
+            // (1) boundary repair on evaluated individuals at, one or two ulps beyond, and a rounding error beyond the bounds
+            let (lo, hi) = *rng.pick(&[(0.5, 10.0), (-10.0, 10.0), (-1.0, 7.0), (1000.0, 1001.0), (-3.0, -0.25)]);
+            let problem = Real::new(dim, lo, hi, f);
+            let near = [lo, hi, up(hi), up(up(hi)), down(lo), down(down(lo)), hi + hi.abs() * f64::EPSILON, lo - lo.abs() * f64::EPSILON, hi + 1e-16, lo - 1e-16, down(hi), up(lo), hi + 0.5, lo - 3.0];
+            let pop: Vec<Vec<f64>> = (0..size).map(|_| (0..dim).map(|_| if rng.chance(0.7) { *rng.pick(&near) } else { rng.f64_in(lo, hi) }).collect()).collect();
+            let (comp, name): (Box<dyn mahf::Component<Real>>, &str) = match rng.below(4) {
+                0 => (boundary::Saturation::new(), "Saturation"),
+                1 => (boundary::Toroidal::new(), "Toroidal"),
+                2 => (boundary::Mirror::new(), "Mirror"),
+                _ => (boundary::CompleteOneTailedNormalCorrection::new(), "CompleteOneTailedNormalCorrection"),
+            };
+            let cfg = Configuration::builder().do_(comp).build();
+            audit_run_prepared(rep, "ulp-beyond-a-bound", &format!("prepared evaluated population; {name}"), json!({"domain": [lo, hi], "f": format!("{f:?}"), "population": format!("{pop:?}")}), &cfg, &problem, seed, false, Some(pop));
+        } else {
+            // (2) velocity update of an all but converged swarm
+            let problem = Real::new(dim, -1.0, 1.0, f);
+            let scale = *rng.pick(&[1e-150, 1e-162, 1e-170, 1e-200, 1e-300, 1e-310, 5e-324, 1e-9]);
+            let vscale = *rng.pick(&[1e-163, 1e-170, 1e-200, 1e-308, 5e-324, 0.0]);
+            let small = |rng: &mut SplitMix64, s: f64| (rng.below(9) as f64 - 4.0) * s;
+            let pop: Vec<Vec<f64>> = (0..size).map(|_| (0..dim).map(|_| small(&mut rng, scale)).collect()).collect();
+            let vel: Vec<Vec<f64>> = (0..size).map(|_| (0..dim).map(|_| small(&mut rng, vscale)).collect()).collect();
+            let best: Vec<f64> = if rng.bool() { vec![0.0; dim] } else { pop[0].clone() };
+            let personal: Vec<Vec<f64>> = pop.iter().map(|x| if rng.bool() { x.clone() } else { x.iter().map(|v| v * 0.5).collect() }).collect();
+            let (w, c1, c2) = (*rng.pick(&[0.7, 1.0, 0.0]), *rng.pick(&[1.0, 0.0, 1.7]), *rng.pick(&[1.0, 0.0, 1.7]));
+            let cfg = Configuration::builder().do_(ParticleVelocitiesUpdate::new::<Real>(w, c1, c2, 1.0).unwrap()).build();
+            let detail = json!({"f": format!("{f:?}"), "population": format!("{pop:?}"), "velocities": format!("{vel:?}"), "global_best": format!("{best:?}"), "w,c1,c2": [w, c1, c2]});
+            let ev = |s: &Vec<f64>| -> Individual<Real> { Individual::new(s.clone(), problem.pure(s).try_into().unwrap()) };
+            let (pb, gb) = (personal.iter().map(ev).collect::<Vec<_>>(), ev(&best));
+            audit_run_custom(rep, "converged-swarm", "prepared evaluated swarm with velocities and memories; ParticleVelocitiesUpdate", detail, &cfg, &problem, seed, false, Some(pop), move |state| {
+                state.insert(ParticleVelocities::<Global>::new(vel));
+                state.insert(BestParticles::<Real, Global>::new(pb));
+                state.insert(BestParticle::<Real, Global>::new(Some(gb)));
+            });
+        }
+        rep.count("rare_scale_state_runs", 1);
+    }
+}
+
 fn pipelines(rep: &Reporter, n: usize) {
     std::thread::scope(|s| {
         for (w, range) in mv::shards(n, num_workers()).into_iter().enumerate() {
@@ -508,7 +570,7 @@ fn failing_operator(rep: &Reporter, n: usize) {
 
 fn main() {
     let rep = Reporter::from_args("C05");
-    rep.rule("(a) every history up to the stated length over 21 individual-level operations on a pair of individuals (evaluate_with two different functions, set_objective, solution_mut with/without write, clone, clone_from, Vec::clone_from, constructors, as_solutions_mut, into_solutions/into_individuals) compared with a (solution, cached objective) model after every step; (b) after EVERY child of every block (step-observer hook) of runs of all 21 templates over the parameter catalogue and of seeded random operator pipelines (selection x 1-3 variation/boundary/swarm operators x archive x replacement, three encodings), and of the swarm operators that move or re-seed particles (firefly update, black-hole update + event horizon, PSO loop) started from prepared hostile populations (coordinates exactly 0.0/-0.0, subnormal and tiny values, domain bounds, duplicates, randomisation switched off or nearly off): every individual in the population stack and in every memory state (best-so-far, elitist archive, PSO bests, CRO molecule bests, every scope) that reports an objective must carry exactly f_pure(solution), bit for bit. distinct_nontrivial = distinct audited runs + a 1/97 sample of the exhaustive histories; (c) second runs on the state a first run left behind, on a changed problem instance (Configuration::run with a warm-start configuration: evaluate, best-so-far update, generic ga / es / ls / de loop), audited against the second objective function after every component");
+    rep.rule("(a) every history up to the stated length over 21 individual-level operations on a pair of individuals (evaluate_with two different functions, set_objective, solution_mut with/without write, clone, clone_from, Vec::clone_from, constructors, as_solutions_mut, into_solutions/into_individuals) compared with a (solution, cached objective) model after every step; (b) after EVERY child of every block (step-observer hook) of runs of all 21 templates over the parameter catalogue and of seeded random operator pipelines (selection x 1-3 variation/boundary/swarm operators x archive x replacement, three encodings), and of the swarm operators that move or re-seed particles (firefly update, black-hole update + event horizon, PSO loop) started from prepared hostile populations (coordinates exactly 0.0/-0.0, subnormal and tiny values, domain bounds, duplicates, randomisation switched off or nearly off), of the four boundary repairs on prepared evaluated populations with coordinates on, one and two ulps beyond and a rounding error beyond the bounds, and of the PSO velocity update on prepared all-but-converged swarms (positions and velocities of magnitude 1e-150..5e-324 with their memories, objective sum|x_i|): every individual in the population stack and in every memory state (best-so-far, elitist archive, PSO bests, CRO molecule bests, every scope) that reports an objective must carry exactly f_pure(solution), bit for bit. distinct_nontrivial = distinct audited runs + a 1/97 sample of the exhaustive histories; (c) second runs on the state a first run left behind, on a changed problem instance (Configuration::run with a warm-start configuration: evaluate, best-so-far update, generic ga / es / ls / de loop), audited against the second objective function after every component");
     rep.assume("objective functions of the harness problems are pure; Individual::new / set_objective are caller assertions and are only ever given true values");
     let len = rep.tier.pick(5usize, 6usize);
     rep.set("individual_history_length", json!(len));
@@ -534,6 +596,7 @@ fn main() {
     pipelines(&rep, rep.tier.pick(10_000, 1_000_000));
     hostile_swarm_states(&rep, rep.tier.pick(4_000, 600_000));
     failing_operator(&rep, rep.tier.pick(2_000, 200_000));
+    rare_scale_states(&rep, rep.tier.pick(6_000, 600_000));
     // a second run on the state of a first one, on a changed problem instance: whatever the second run
     // re-creates (best-so-far, populations it re-evaluates) carries values of the second objective only
     {
